@@ -329,6 +329,62 @@ def r08_3c(ck, F):
               ra.loc(ext[0]))
 
 
+def r08_6(ck, F):
+    ck.rule("R08.6", "the set of outstanding remote port requests is kept element by element: in the dispatcher (mux.rs) the only "
+            "mutating operations on ChMux.outstanding_remote_port_requests are HashSet::insert and HashSet::remove, and the bool "
+            "result of every insert made while handling a received message is examined with the `false` outcome (port already "
+            "outstanding) leading to a protocol error",
+            "a PortData frame listing the same remote port twice: two Requests for one set entry reach the user, the second "
+            "answer (accept / reject / drop) makes handle_event panic 'non-outstanding remote port' instead of ending the "
+            "connection with a protocol error", floor=3)
+    FIELD = "outstanding_remote_port_requests"
+    n = 0
+    for b in F.by_dp.values():
+        if b.crate != "remoc" or not b.file.endswith("chmux/mux.rs"):
+            continue
+        for bb, t in b.calls():
+            c = callee(t) or ""
+            if not t["a"] or t["fn"].get("recv") != "mut":
+                continue
+            e = b.expr(t["a"][0])
+            if mir.last_field(e) != FIELD:
+                continue
+            n += 1
+            name = c.split("::")[-1]
+            site = f"{fn_short(b.path)}#{name}@{n}"
+            if name not in ("insert", "remove"):
+                ck.bad(site, f"{fn_short(b.path)} changes {FIELD} with {c}: elements are added / removed without a per-element result "
+                       f"(a duplicate inside one frame goes unnoticed)", b.loc(bb))
+                continue
+            if name == "insert" and "handle_received_msg" in b.path:
+                # result examined: a switch on the call result whose false edge reaches a protocol_err
+                d = t.get("d")
+                examined = False
+                for s_ in b.reach([bb], include_start=False):
+                    tt = b.term(s_)
+                    if tt["t"] != "switch":
+                        continue
+                    se = switch_expr(b, s_)
+                    inner = se
+                    neg = False
+                    while isinstance(inner, tuple) and inner and inner[0] == "un" and inner[1] == "Not":
+                        inner, neg = inner[2], not neg
+                    if isinstance(inner, tuple) and inner and inner[0] == "call" and inner[1] == c and len(inner) > 3 and inner[3] == bb:
+                        for v, tb in list(tt["targets"]) + [(None, tt["otherwise"])]:
+                            m = switch_meaning(b, s_, v)
+                            if isinstance(m, bool) and (m != neg) is False:
+                                perr = [q for q, t2 in b.calls() if (callee(t2) or "").endswith("protocol_err") and q in b.reach([tb])]
+                                oks = {q for q, i2, v2 in b.result_stores("Ok")}
+                                if perr and b.find_path([tb], list(oks), avoid=perr) is None:
+                                    examined = True
+                ck.expect(examined, site, "insert result examined; duplicate -> protocol error",
+                          f"{fn_short(b.path)}: the result of {FIELD}.insert(..) is not examined (a port that is already outstanding must "
+                          f"be a protocol error)", b.loc(bb))
+            else:
+                ck.ok(site, f"{name}", b.loc(bb))
+    ck.expect(n >= 3, "outstanding#sites", f"{n} mutating accesses", f"only {n} mutating accesses of {FIELD} found in mux.rs", None)
+
+
 def r08_4(ck, F):
     ck.rule("R08.4", "the decoder is total: MultiplexMsg::read has an otherwise branch that returns an error, compares "
             "the magic, and from_slice maps decode errors to ChMuxError::Protocol",
@@ -372,7 +428,7 @@ def r08_5(ck, F):
 
 def run(ck, F):
     import c02
-    for r in (r08_1, r08_1b, r08_2, r08_3, r08_3b, r08_3c, r08_4, r08_5):
+    for r in (r08_1, r08_1b, r08_2, r08_3, r08_3b, r08_3c, r08_4, r08_5, r08_6):
         ck.run_rule(r)
     # shared clauses: the buffering bound rests on the receive-side accounting and on the right limit being wired
     for r in (c02.r02_5, c02.r02_6, c02.r02_7):
